@@ -62,8 +62,19 @@ C_RangeStop(e) == e.op = "RangeStop" => /\ Len(e.vis) = (IF e.n < Cardinality(A0
                                         /\ NoDup(e.vis) /\ Elems(e.vis) \subseteq A0(e) /\ Mem(e.a1) = A0(e)
 \* "the NewSetFrom* constructors agree with the membership model"
 C_Ctor(e) == e.op = "Ctor" => ObsOK(e.r1) /\ Mem(e.r1) = Elems(e.vals)
+\* String for other element types (arrays, strings that contain brackets, pointers to structs, the empty string): "{" members in
+\* some order, separated by one space, each printed as fmt prints it "}"
+Txt(ety, v) == CASE ety = "arr" -> "[" \o ToString(v) \o " " \o ToString(v + 1) \o "]"
+                 [] ety = "bstr" -> "[" \o ToString(v) \o "]"
+                 [] ety = "ptr" -> "&{" \o ToString(v) \o " " \o ToString(v + 1) \o "}"
+                 [] ety = "str" -> (IF v = 0 THEN "" ELSE "s" \o ToString(v))
+                 [] OTHER -> ToString(v)
+RECURSIVE JoinT(_, _)
+JoinT(ety, q) == IF q = <<>> THEN "" ELSE IF Len(q) = 1 THEN Txt(ety, q[1]) ELSE Txt(ety, q[1]) \o " " \o JoinT(ety, Tail(q))
+Perms(S) == {q \in [1..Cardinality(S) -> S] : \A i, j \in 1..Cardinality(S) : i # j => q[i] # q[j]}
+C_StringTy(e) == e.op = "StringTy" => \E q \in Perms(Elems(e.vals)) : e.sty = "{" \o JoinT(e.ety, q) \o "}"
 C_NoPanic(e) == e.panic = ""
-All(e) == C_NoPanic(e) /\ C_Build(e) /\ C_Result(e) /\ C_Detached(e) /\ C_Bulk(e) /\ C_Product(e) /\ C_RangeStop(e) /\ C_Ctor(e)
+All(e) == C_NoPanic(e) /\ C_Build(e) /\ C_Result(e) /\ C_Detached(e) /\ C_Bulk(e) /\ C_Product(e) /\ C_RangeStop(e) /\ C_Ctor(e) /\ C_StringTy(e)
 TInit == l = 1
 Step == l <= Len(Trace) /\ l' = l + 1 /\ (Gate => All(Ev))
 TSpec == TInit /\ [][Step]_vars
@@ -77,6 +88,7 @@ I_Bulk == Chk => C_Bulk(Obs)
 I_Product == Chk => C_Product(Obs)
 I_RangeStop == Chk => C_RangeStop(Obs)
 I_Ctor == Chk => C_Ctor(Obs)
+I_StringTy == Chk => C_StringTy(Obs)
 Track == TrackL(l)
 Accepted == AcceptedP
 ====
